@@ -430,3 +430,58 @@ pub fn sample_frame(cfg: &Cfg, frame: &[u8], reply: Option<&[u8]>, verdict: &str
         "verdict": verdict,
     })
 }
+
+/// Execute a list of stateless commands in parallel slices; observations returned in order.
+/// (C01 oracle and monitor are applied as in `run`.)
+pub fn map_cmds(cfg: &Cfg, cmds: &[Cmd], stage: &str, monitor: bool, sink: &mut Sink) -> Vec<Out> {
+    let results: Mutex<BTreeMap<u64, Vec<Out>>> = Mutex::new(BTreeMap::new());
+    let chunk: u64 = 2048;
+    let total = cmds.len() as u64;
+    let nchunks = (total + chunk - 1) / chunk;
+    let mut opts = RunOpts::new(stage).chunk(1);
+    opts.monitor = false;
+    let mon_opts = RunOpts {
+        stage: stage.to_string(),
+        chunk: 1,
+        monitor,
+        stateless: true,
+    };
+    let model_holder = Model::new();
+    let _ = &model_holder;
+    run(
+        cfg,
+        nchunks,
+        &opts,
+        |ci| {
+            let a = (ci * chunk) as usize;
+            let b = ((ci + 1) * chunk).min(total) as usize;
+            cmds[a..b].to_vec()
+        },
+        |it: &Item, s: &mut Sink| {
+            if monitor {
+                let model = Model::new();
+                for (k, (c, o)) in it.cmds.iter().zip(it.outs.iter()).enumerate() {
+                    if let Cmd::Frame(f) = c {
+                        if o.panicked {
+                            continue;
+                        }
+                        let mut tbl = ModelTable::new();
+                        let j = model.judge(cfg, &mut tbl, f, o.reply.as_deref());
+                        s.class(&j.class);
+                        for fd in j.findings {
+                            let single = Item { idx: it.idx * chunk + k as u64, cmds: &it.cmds[k..=k], outs: &it.outs[k..=k] };
+                            push_finding(s, cfg, &fd, &single, 0, &mon_opts.stage);
+                        }
+                    }
+                }
+            }
+            results.lock().unwrap().insert(it.idx, it.outs.to_vec());
+        },
+        sink,
+    );
+    let mut out = Vec::with_capacity(cmds.len());
+    for (_, v) in results.into_inner().unwrap() {
+        out.extend(v);
+    }
+    out
+}
